@@ -29,7 +29,9 @@ EXPLANATION = (
     "resp. Rinv; (R7) set_identity_scaling resets every field that update_scaling computes and an operator reads; (R8) the "
     "sparse expansion written into the KKT matrix (diagonal d, columns u and v, extension diagonal, pivot signs) has Schur "
     "complement eta^2 (2 w w' - J), proved as rational-function identities on the hyperboloid; (R9) the composite cone hands "
-    "every cone exactly its own range of every vector argument.")
+    "every cone exactly its own range of every vector argument."
+    " (R10) dense second-order cone KKT block: packed upper triangle of eta^2 (2 w w' - J) - entry (0,0) = 2 w0^2 - 1 modulo (sqrt 2)^2 = 2, later columns 2 w_r w_c with +1 on the diagonal, scaled by eta^2."
+    " (R11) identity scaling of the second-order cone: w = (1, 0), eta = 1 and the sparse expansion satisfies d + u0^2 - v0^2 = 1 (modulo (1/sqrt 2)^2 = 1/2) with zero tails.")
 ASSUMPTIONS = ['rustc MIR construction and trait resolution are correct',
                'sqrt, *, /, dot, norm, axpby, waxpby, scale on T are the real operations (identities are over the reals, not floating point); s, z interior',
                'the diagonal KKT block is minus get_Hs (decided under C11)']
@@ -794,6 +796,154 @@ def composite_slices(rep, F, tag, rid='C13.R9'):
     R.guard(body)
 
 
+def soc_dense_block(rep, ctx, cfg, tag):
+    """Dense second-order cones (no sparse expansion) put the packed upper triangle of Hs = eta^2 (2 w w' - J), J = diag(1, -I), into
+    the KKT matrix: entry (0,0) is 2 w0^2 - 1, entry (r,c) of a later column is 2 w_r w_c, its diagonal entry gets + 1, and the whole
+    block is scaled by eta^2.  This is the matrix of mul_Hs (C13.R4); a wrong sign of the J term leaves the KKT block different from the
+    operator that recovers ds."""
+    R = rep.rule('C13.R10', 'second-order cone, dense KKT block: packed triu of eta^2 (2 w w\' - J) - entry (0,0) = 2 w0^2 - 1, later columns 2 w_r w_c with + 1 on the diagonal')
+
+    def body():
+        from engine.linform import LF, P_atom, P_const, P_add, P_mul, P_neg, P_fmt, P_reduce
+        F, E = ctx.facts(cfg), ctx.eff(cfg)
+        f = F.one(name='get_Hs', adt='SecondOrderCone', trait='Cone')
+
+        def atoms(k, s_):
+            m = re.fullmatch(r'index\(self\.w, (.*)\)', k)
+            if m:
+                i = m.group(1)
+                if i == '0_usize':
+                    return ('S', P_atom('w0'))
+                if re.match(r'next\(into_iter\((new|RangeInclusive::new)\(0_usize', i):
+                    return ('S', P_atom('wr'))
+                if i.startswith('next(into_iter(Range::Range('):
+                    return ('S', P_atom('wc'))
+                if i in ('var:col',):
+                    return ('S', P_atom('wc'))
+                if i in ('var:row',):
+                    return ('S', P_atom('wr'))
+            if k == 'SQRT_2()':
+                return ('S', P_atom('s'))
+            if k == 'self.η':
+                return ('S', P_atom('eta'))
+            return None
+        I = LF(F, E, f, atoms)
+        two_w0sq_m1 = P_add(P_mul(P_const(2), P_mul(P_atom('w0'), P_atom('w0'))), P_neg(P_const(1)))
+        rules = [({'s': 2}, P_const(2))]
+        dense = [(val, ret, st) for val, ret, st in I.run({}, local_stores=True) if any(k == 'discr(self.sparse_data)' and v != 1 for k, v in val.items())]
+        R.check(len(dense) >= 3, 'dense-paths' + tag, 'only %d paths of the dense branch analysed' % len(dense), f.loc())
+        seen_inner = seen_exit = False
+        for val, ret, st in dense:
+            colk = [k for k in val if k.startswith('discr(next(into_iter(Range::Range(')]
+            R.check(bool(colk) and all(k.startswith('discr(next(into_iter(Range::Range(1_usize, self.dim)') for k in colk), 'columns-from-1' + tag,
+                    'the generic column loop runs over %s: column 0 holds the single entry 2 w0^2 - 1 (J contributes -1 there, +1 on every later '
+                    'diagonal), so the loop must start at column 1' % [k[5:60] for k in colk], f.loc())
+            h0 = st.get('arg2[0_usize]')
+            ok0 = h0 is not None and h0[0] == 'S' and P_reduce(h0[1], rules) == two_w0sq_m1
+            R.check(ok0, 'entry-00' + tag, 'entry (0,0) of the dense block is %s, expected 2 w0^2 - 1' % (P_fmt(P_reduce(h0[1], rules)) if h0 is not None and h0[0] == 'S' else h0), f.loc())
+            v = st.get('arg2[var:hidx]')
+            if v is not None:
+                seen_inner = True
+                R.check(v[0] == 'S' and v[1] == P_mul(P_const(2), P_mul(P_atom('wr'), P_atom('wc'))), 'entry-rc' + tag,
+                        'entry (r,c) is %s, expected 2 w_r w_c' % (P_fmt(v[1]) if v[0] == 'S' else v), f.loc())
+        wk = Walker(f, cut_loops=True).leaves()
+        n_diag = 0
+        for val, ret, ev, tr in wk:
+            if not any(k == 'discr(self.sparse_data)' and v != 1 for k, v in val.items()):
+                continue
+            inner = [k for k in val if re.match(r'discr\(next\(into_iter\((new|RangeInclusive::new)\(0_usize, ', k)]
+            adds = [str(e[2]) for e in ev if e[0] == 'call' and e[1] in ('add_assign', 'sub_assign')]
+            if inner and val[inner[0]] == 0:
+                n_diag += 1
+                R.check(adds == ['add_assign(arg2[subwithoverflow(var:hidx, 1_usize).0], one())'], 'diagonal-plus-one' + tag,
+                        'after a column the block receives %s, expected += 1 on the diagonal entry just written (the -J term is +1 for every index >= 1)' % adds, f.loc())
+            else:
+                R.check(not adds, 'diagonal-plus-one|elsewhere' + tag, 'an offset %s is applied outside the end of a column' % adds, f.loc())
+            if inner:
+                R.check(all(k.startswith('discr(next(into_iter(new(0_usize, next(into_iter(Range::Range(') or 'var:col' in k for k in inner), 'rows-0-to-col' + tag,
+                        'rows of a column run over %s, expected 0..=col' % [k[:80] for k in inner], f.loc())
+            if ret[0] == 's':
+                sc = [str(e[2]) for e in ev if e[0] == 'call' and e[1] == 'scale']
+                seen_exit = True
+                R.check(sc == ['scale(arg2, mul(self.η, self.η))'], 'eta-squared' + tag, 'the dense block is finished with %s, expected scale by eta^2' % sc, f.loc())
+        R.check(seen_inner and seen_exit and n_diag >= 1, 'coverage' + tag, 'inner store %s, exit %s, diagonal paths %d' % (seen_inner, seen_exit, n_diag), f.loc())
+        hs = [canon(f.sym_rvalue(st['rv'])).replace('withoverflow', '').replace(').0', ')') for bi, si, st in f.assignments() if not st['p']['p'] and f.local_name(st['p']['l']) == 'hidx']
+        R.check(sorted(hs) == ['1_usize', 'add(var:hidx, 1_usize)'], 'packing-cursor' + tag, 'hidx is updated by %s, expected start 1 and +1 per stored entry' % hs, f.loc())
+
+    R.guard(body)
+
+
+def soc_identity_expansion(rep, ctx, cfg, tag):
+    """At identity scaling (the factorisation that produces the starting point of a symmetric problem) the sparse-expanded block must
+    represent W'W = I: with D = diag(d, 1, .., 1), D + u u' - v v' = I, i.e. d + u0^2 - v0^2 = 1 and zero tails; w = (1, 0), eta = 1.
+    Two valid encodings exist (d = 1, u = 0 and d = 1/2, u0 = 1/sqrt 2); mixing them writes diag(1.5, 1, ..) into the KKT matrix."""
+    R = rep.rule('C13.R11', 'second-order cone, identity scaling: w = (1, 0), eta = 1 and the sparse expansion satisfies d + u0^2 - v0^2 = 1 with zero tails')
+
+    def body():
+        from engine.linform import P_reduce
+        F = ctx.facts(cfg)
+        f = F.one(name='set_identity_scaling', adt=SOC, trait='Cone')
+
+        def val_of(t):
+            t = str(t)
+            if t == 'one()':
+                return P_const(1)
+            if t == 'zero()':
+                return {}
+            if t == 'FRAC_1_SQRT_2()':
+                return P_atom('h')
+            if t == 'SQRT_2()':
+                return P_atom('r2')
+            m = _re.fullmatch(r'(-?\d+(?:\.\d+)?)(f64|f32)?', t)
+            if m:
+                return P_const(Fraction(m.group(1)))
+            return None
+        rules = [({'h': 2}, P_const(Fraction(1, 2))), ({'r2': 2}, P_const(2))]
+        seen = set()
+        for val, ret, ev, tr in Walker(f, cut_loops=True).leaves():
+            if ret[0] == 'diverge':
+                continue
+            sparse = any('sparse_data' in k and v == 1 for k, v in val.items())
+            stv = {}
+            order_ok = True
+            for e in ev:
+                if e[0] == 'call' and e[1] in ('fill', 'set'):
+                    a = split_args(str(e[2]))
+                    stv[a[0] + '[..]'] = val_of(a[1])
+                    stv.pop(a[0] + '[0]', None)      # a later fill overwrites the head
+                elif e[0] == 'store':
+                    t = str(e[1])
+                    m = _re.fullmatch(r'index_mut\((.*), 0_usize\)', t)
+                    if m:
+                        stv[m.group(1) + '[0]'] = val_of(e[2])
+                    else:
+                        stv[t] = val_of(e[2])
+
+            def head(v):
+                return stv.get(v + '[0]', stv.get(v + '[..]'))
+            seen.add(sparse)
+            kind = 'sparse' if sparse else 'dense'
+            R.check(head('self.w') == P_const(1) and stv.get('self.w[..]') == {} and stv.get('self.η') == P_const(1), 'w-eta|%s%s' % (kind, tag),
+                    'identity scaling leaves w = (%s, %s), eta = %s; expected (1, 0), 1' % (head('self.w'), stv.get('self.w[..]'), stv.get('self.η')), f.loc())
+            if sparse:
+                pre = [k[:-len('.d')] for k in stv if k.endswith('.d')]
+                if not R.check(len(pre) == 1, 'd-written' + tag, 'the sparse branch writes d %d times' % len(pre), f.loc()):
+                    continue
+                b = pre[0]
+                d, u0, v0 = stv.get(b + '.d'), head(b + '.u'), head(b + '.v')
+                ut, vt = stv.get(b + '.u[..]'), stv.get(b + '.v[..]')
+                ok = None not in (d, u0, v0) and ut == {} and vt == {}
+                if ok:
+                    lhs = P_reduce(P_add(P_add(d, P_mul(u0, u0)), P_mul(v0, v0), -1), rules)
+                    ok = lhs == P_const(1)
+                R.check(ok, 'expansion-is-identity' + tag,
+                        'identity scaling sets d = %s, u = (%s, %s), v = (%s, %s): the expanded block D + u u\' - v v\' is the identity only if d + u0^2 - v0^2 = 1 and the tails '
+                        'are zero (d = 1/2 with u0 = 1/sqrt 2, or d = 1 with u0 = 0)' % tuple(P_fmt(x) if isinstance(x, dict) else x for x in (d, u0, ut, v0, vt)), f.loc())
+        R.check(seen == {True, False}, 'branches' + tag, 'set_identity_scaling branches seen: %s' % sorted(seen), f.loc())
+
+    R.guard(body)
+
+
 def run(ctx, rep, tier):
     for cfg in (CONFIGS_THOROUGH if tier == 'thorough' else CONFIGS):
         tag = '' if cfg == 'default' else '[%s]' % cfg
@@ -805,6 +955,8 @@ def run(ctx, rep, tier):
         reset_completeness(rep, ctx, cfg, tag)
         soc_sparse_expansion(rep, ctx, cfg, tag)
         composite_slices(rep, ctx.facts(cfg), tag)
+        soc_dense_block(rep, ctx, cfg, tag)
+        soc_identity_expansion(rep, ctx, cfg, tag)
     from . import c11
     F, E = ctx.facts('default'), ctx.eff('default')
     c11.one_scaling_state(_Ren(rep, 'C11.R5', 'C13.R3'), F, E, '')
